@@ -458,7 +458,7 @@ CHAIN_PREFIXES = [None, '', 'sub', 'sub/']
 # round 4: a chain inside a chain (outer prefix, inner prefix) around the constrained member; and an UNconstrained member on
 # another folder ({BASE}/elsewhere, consulted first) next to the constrained one
 NESTED_CHAINS = [('nest', 'sub', ''), ('nest', '', 'sub'), ('nest', 'x/..', 'sub'), ('mixed', '', ''), ('mixed', '..', 'sub')]
-THIN_LABELS = ['abs-trailing-sep', 'relative-trailing-sep', 'unnormalised', 'pathlib']
+THIN_LABELS = ['abs-trailing-sep', 'relative-trailing-sep', 'unnormalised', 'pathlib', 'relative']
 PLAIN_CONFIGS = 7           # the first seven root configurations are drawn by the random part (keeps the random stream of round 3)
 ESCAPE_KEYS = ('escape-', 'handle-escape-', 'history-escape-')
 # after_loose comes before handle_loose: both let an unconstrained system resolve the name, the history op wants to be first
@@ -707,7 +707,7 @@ def _ignored_prefixes() -> tuple:
     return tuple(x.rstrip('/') + '/' for x in {sys.prefix, sys.base_prefix, os.path.dirname(os.__file__), str(REPO), str(VERIF)})
 
 
-def run_op(base: str, root_spec: str, chain_prefix, op: str, path_t: str, cold: bool = True) -> dict:
+def run_op(base: str, root_spec: str, chain_prefix, op: str, path_t: str, cold: bool = True, entry_hist: bool = True) -> dict:
     """Run one operation on a fresh filesystem object; returns outcome, data and the observed accesses.
 
     handle_loose: a File produced by an UNconstrained RawFileSystem on the same folder (its lookup is not observed, it
@@ -719,6 +719,7 @@ def run_op(base: str, root_spec: str, chain_prefix, op: str, path_t: str, cold: 
     os.chdir(base)
     data: list[str] = []
     answers: list[str] = []     # positive answers of the constrained filesystem about this name: `in` said True, [] returned a File
+    hist_ops = HIST_SUB_OPS if entry_hist else SUB_OPS      # does the history operation include the inherited entry points?
     handle = raw = unexpected = None
     cold_escape = exempt_answers = False
     exempt: set = set()
@@ -762,7 +763,7 @@ def run_op(base: str, root_spec: str, chain_prefix, op: str, path_t: str, cold: 
             if cold:
                 with observe() as ev0:
                     cold_data: list[str] = []
-                    for sub in HIST_SUB_OPS:
+                    for sub in hist_ops:
                         try:
                             _sub_op(fs, sub, path, cold_data, 60)
                         except (OSError, ValueError, UnicodeError):
@@ -772,7 +773,7 @@ def run_op(base: str, root_spec: str, chain_prefix, op: str, path_t: str, cold: 
                 cold_escape = any(not is_inside(root, p) and not p.startswith(_ignored_prefixes()) for p in seen0)
                 fs, raw = make_fs(base, root_spec, chain_prefix)
             loose, _ = make_fs(base, root_spec, chain_prefix, constrain=False)
-            for sub in HIST_SUB_OPS:
+            for sub in hist_ops:
                 try:
                     _sub_op(loose, sub, path, [], 3)
                 except (OSError, ValueError, UnicodeError):
@@ -837,7 +838,7 @@ def run_op(base: str, root_spec: str, chain_prefix, op: str, path_t: str, cold: 
                     out = f'ok:{n} files'
                 elif op == 'after_loose':
                     done = []
-                    for sub in HIST_SUB_OPS:
+                    for sub in hist_ops:
                         try:
                             done.append(sub + '=' + _sub_op(fs, sub, path, data, 60, answers))
                         except RootEscapeError:
@@ -947,7 +948,7 @@ def targeted_paths(base: str, root_abs_t: str) -> list[str]:
 
 
 def search_trees(ck: Ck) -> None:
-    n_random = ck.budget(2500, 40000)
+    n_random = ck.budget(2000, 40000)
     base_dir = Path(tempfile.mkdtemp(prefix='tree_', dir=ck.scratch))
     base = os.path.realpath(base_dir)
     build_tree(Path(base))
@@ -958,9 +959,9 @@ def search_trees(ck: Ck) -> None:
 
     plain_escaped: set = set()       # (root configuration, chain prefix, path) on which a plain operation escaped
 
-    def case(label, root_spec, cp, op, path_t, cold=True):
+    def case(label, root_spec, cp, op, path_t, cold=True, entry_hist=True):
         t0 = time.perf_counter()
-        r = run_op(base, root_spec, cp, op, path_t, cold=cold)
+        r = run_op(base, root_spec, cp, op, path_t, cold=cold, entry_hist=entry_hist)
         if op == 'after_loose' and not cold:
             r['cold_escape'] = (label, cp, path_t) in plain_escaped
         op_seconds[op] = op_seconds.get(op, 0.0) + time.perf_counter() - t0
@@ -1056,11 +1057,11 @@ def search_trees(ck: Ck) -> None:
                     if cp is None and (full or k % 4 == 0):
                         ops = ops + ENTRY_OPS
                 for op in ops:
-                    # the history op costs ten operations: in the quick tier on the corpus and every second spelling; the
+                    # the history op costs ten operations: in the quick tier on the corpus and every third spelling; the
                     # plain operations on the same name come first in `ops` and say whether an escape needs the history
-                    if op == 'after_loose' and not (ck.thorough or ck.tie_broken or k < n_corpus or k % 2 == 0):
+                    if op == 'after_loose' and not (ck.thorough or ck.tie_broken or k < n_corpus or k % 3 == 0):
                         continue
-                    case(label, root_spec, cp, op, path_t, cold=False)
+                    case(label, root_spec, cp, op, path_t, cold=False, entry_hist=full)
     # 2. random segment paths
     rng = ck.rng
     for _ in range(n_random):
@@ -1073,7 +1074,7 @@ def search_trees(ck: Ck) -> None:
         path_t = pre + join_kind(kind, segs)
         op = rng.choice(OPS)
         ck.hist('tree_random_segments', k)
-        hit = case(label, root_spec, cp, op, path_t)
+        hit = case(label, root_spec, cp, op, path_t, entry_hist=ck.thorough or bool(ck.tie_broken))
         if hit and found[hit]['_n'] <= 4:
             # shrink (the first hits of every class only: on a broken tree thousands of random paths escape):
             # drop segments while the same class of escape remains
